@@ -786,6 +786,9 @@ def c14(tier, replay_file=None):
     try:
         exe = build_harness()
         wd = workdir("%s-%s" % (prop, "replay" if replay_file else tier))
+        if replay_file and json.load(open(replay_file)).get("engine") in ("E2-loop-trace", "E2-loop-walk"):
+            import e2
+            return e2.check(prop, tier, replay_file)
         if replay_file:
             rp = json.load(open(replay_file))
             if rp.get("engine") == "E1-mapper-table":
@@ -950,6 +953,10 @@ def c14(tier, replay_file=None):
         }
         res.assumptions = ["arbitrary byte strings are not enumerated: bytes that are not JSON never reach repository code (serde_json rejects them)",
                            "accepted layouts are driven over a 6-key sub-alphabet with <= 3 keys held"]
+        if not replay_file and not res.tool_errors:
+            # ... and the loop that drives the mapper: accepted layouts with boundary repeat timings (zero, negative) under timer expiries
+            import e2
+            res.coverage.update(e2.loop_level(res, exe, wd, tier, prop))
     except ToolError as e:
         res.tool_errors.append(str(e))
     return res.finish()
